@@ -142,18 +142,49 @@ class Machine:
                           ast.GeneratorExp)):
             return self.comprehension(e)
         if isinstance(e, ast.JoinedStr):
-            return '<text>'
+            # a message: its text when every part is a plain value,
+            # an opaque text otherwise
+            parts = []
+            for v in e.values:
+                if isinstance(v, ast.Constant):
+                    parts.append(str(v.value))
+                    continue
+                if v.format_spec is not None or v.conversion != -1:
+                    return Sym('text')
+                try:
+                    x = self.ev(v.value)
+                except Unknown:
+                    return Sym('text')
+                if isinstance(x, bool) or x is None or isinstance(
+                        x, (int, str)):
+                    parts.append(str(x))
+                else:
+                    return Sym('text')
+            return ''.join(parts)
         if isinstance(e, ast.Starred):
             raise Unknown('starred')
         if isinstance(e, ast.UnaryOp):
             v = self.ev(e.operand)
             if isinstance(e.op, ast.Not):
+                if isinstance(v, Sym):
+                    raise Unknown(au.src(e))
                 return not v
             if isinstance(e.op, ast.USub):
+                if isinstance(v, bool) or not isinstance(v, (int, float)):
+                    if isinstance(v, (Sym, tuple)):
+                        raise Unknown(au.src(e))
+                    raise Raised('TypeError', e)
                 return -v
+            if isinstance(e.op, ast.UAdd) and isinstance(
+                    v, (int, float)):
+                return +v
+            if isinstance(e.op, ast.Invert) and isinstance(v, int):
+                return ~v
             raise Unknown(au.src(e))
         if isinstance(e, ast.BinOp):
             a, b = self.ev(e.left), self.ev(e.right)
+            if isinstance(a, Sym) or isinstance(b, Sym):
+                raise Unknown(au.src(e))
             try:
                 if isinstance(e.op, ast.Add):
                     return a + b
@@ -170,6 +201,14 @@ class Machine:
                     return a ** b
                 if isinstance(e.op, ast.FloorDiv) and b:
                     return a // b
+                if isinstance(e.op, ast.Mod) and b and not isinstance(
+                        a, str):
+                    return a % b
+                if isinstance(e.op, ast.BitXor):
+                    return a ^ b
+                if isinstance(e.op, (ast.FloorDiv, ast.Mod)) and \
+                        isinstance(b, int) and not b:
+                    raise Raised('ZeroDivisionError', e)
             except TypeError:
                 raise Raised('TypeError', e)
             raise Unknown(au.src(e))
@@ -416,7 +455,14 @@ class Machine:
             return len(v)
         if n in ('min', 'max') and e.args and not e.keywords:
             vals = self.elements(e.args)
-            return min(vals) if n == 'min' else max(vals)
+            if len(vals) == 1:
+                vals = list(self.iterate(vals[0]))
+            if not vals:
+                raise Raised('ValueError', e)
+            try:
+                return min(vals) if n == 'min' else max(vals)
+            except TypeError:
+                raise Raised('TypeError', e)
         if n == 'isinstance' and len(e.args) == 2:
             v = self.ev(e.args[0])
             types = e.args[1].elts if isinstance(
